@@ -171,9 +171,25 @@ def bad_cases(draw):
         u = draw(st.sampled_from('dhms'))
         s = f"{a}{u}{draw(ws)}{b}{u}"
     elif kind == 'frac_larger':
-        u1, u2 = draw(st.sampled_from([('d', 'h'), ('d', 's'), ('h', 'm'), ('h', 's'), ('m', 's'), ('d', 'm')]))
+        # a fraction in a unit that is followed by a smaller unit - whatever the smaller units' values
+        # are (zero included), in both notations
+        units = draw(st.lists(st.sampled_from('dhms'), min_size=2, max_size=4, unique=True))
+        units = [u for u in 'dhms' if u in units]
+        where = draw(st.integers(0, len(units) - 2))
         mark = draw(st.sampled_from('.,'))
-        s = f"{a}{mark}5{u1}{draw(ws)}{b}{u2}"
+        zeros = draw(st.booleans())
+        vals = []
+        for i, u in enumerate(units):
+            v = draw(st.sampled_from(['0', '0', '00'])) if zeros and i > where else draw(n)
+            if i == where:
+                v = f"{draw(n)}{mark}{draw(st.sampled_from(['5', '25', '0', '999']))}"
+            vals.append(v)
+        if draw(st.booleans()):
+            s = draw(ws).join(f"{v}{u}" for v, u in zip(vals, units))
+        else:
+            date = ''.join(f"{v}D" for v, u in zip(vals, units) if u == 'd')
+            time_ = ''.join(f"{v}{u.upper()}" for v, u in zip(vals, units) if u != 'd')
+            s = 'P' + date + ('T' + time_ if time_ else '')
     elif kind == 'iso_ym':
         s = draw(st.sampled_from([
             f"P1Y", f"P{a}Y1M", f"P2M", f"P0Y3M{b}D", f"P1Y{a}DT{b}H", f"P1MT{b}M"]))
